@@ -116,6 +116,19 @@ func modeC03(thorough bool) {
 		time.Sleep(time.Duration(i%40) * 5 * time.Millisecond)
 		in.send(jobs[i].lst, "", jobs[i].q, 9*time.Second, jobs[i].hdr)
 	})
+	// with the cache on: the same name and type in another class is another question
+	if inc, err := newInst("c03-cache", instOpts{listeners: []string{"udp", "tcp"}, upstreams: map[string]string{"u1": "udp"}, rules: []ruleSpec{{Forward: "u1"}}, cacheMem: 1 << 20}); err == nil {
+		for k := 0; k < 3; k++ {
+			n := fmt.Sprintf("%s.r0t60d0.cl.test.", uniq())
+			for _, c := range []uint16{dns.ClassINET, dns.ClassCHAOS, dns.ClassHESIOD, dns.ClassCHAOS, dns.ClassINET} {
+				q := mkq(n)
+				q.cls = c
+				q.typ = []uint16{dns.TypeA, dns.TypeTXT, dns.TypeA}[k]
+				inc.send([]string{"udp", "tcp"}[k%2], "", q, 3*time.Second, nil)
+			}
+		}
+		inc.close()
+	}
 	// a UDP client that advertises 65535 octets and an answer of 65508..65535 octets: legal for the advertised
 	// size, impossible as one datagram. The client still gets a response, and the listener keeps answering.
 	for k := 0; k < 2; k++ {
@@ -209,15 +222,21 @@ func modeC10(rulesFile string) {
 func modeC10Prefetch() {
 	in, err := newInst("c10-pf", instOpts{
 		listeners: []string{"udp", "tcp"},
-		upstreams: map[string]string{"u1": "udp", "u2": "tcp"},
-		sets:      stdSets(),
-		rules:     []ruleSpec{{Set: "s1", Forward: "u1"}, {Forward: "u2"}},
+		upstreams: map[string]string{"u1": "udp", "u2": "tcp", "u3": "http"},
+		sets:      map[string][]string{"s1": stdSets()["s1"], "s2": stdSets()["s2"], "s3": {"domain:z3.test"}},
+		rules:     []ruleSpec{{Set: "s1", Forward: "u1"}, {Set: "s3", Forward: "u3"}, {Forward: "u2"}},
 		cacheMem:  4 << 20,
 	})
 	if err != nil {
 		panic(err)
 	}
 	defer in.close()
+	// many different questions in flight at once on the DoH upstream: each is sent as itself
+	par(96, func(i int) {
+		q := mkq(fmt.Sprintf("%s.r0t60d%d.z3.test.", uniq(), i%4))
+		q.typ = []uint16{dns.TypeA, dns.TypeAAAA, dns.TypeTXT}[i%3]
+		in.send([]string{"udp", "tcp"}[i%2], "", q, 4*time.Second, nil)
+	})
 	var hot []string
 	for i := 0; i < 24; i++ {
 		hot = append(hot, fmt.Sprintf("%s.r0t8d%d.z1.test.", uniq(), 5+i%10))
@@ -289,7 +308,7 @@ func modeC07(thorough bool) {
 		rules:     []ruleSpec{{Forward: "u1"}},
 		cacheMem:  8 << 20,
 		xffHeader: "X-Client",
-		ipMarker: []string{"127.0.1.0,127.0.1.255,office", "127.0.2.5,127.0.2.5,single", "127.0.2.6,127.0.3.0,office",
+		ipMarker: []string{"127.0.1.0,127.0.1.255,office      # first floor", "127.0.2.5,127.0.2.5,single", "  127.0.2.6,127.0.3.0,office\t# second floor", "# a comment line",
 			"2001:db8::,2001:db8::ffff,v6lab", "10.0.0.0,10.0.0.255,ten", "192.0.2.1,192.0.2.1,one"},
 	})
 	if err != nil {
@@ -631,6 +650,10 @@ func modeC08(thorough bool, only string) {
 				}
 			}, st...)
 		}
+		// a storm of simultaneous hits on one entry while its refresh is slow: still one refresh
+		ps := n("r0t8d0")
+		add("p-storm", base, func(in *inst) { in.ups["u1"].setSeq(ps, "r0t8d0", "r0t8d900") },
+			step{0, 1, ps}, step{ms(6300), 400, ps}, step{ms(6400), 400, ps}, step{ms(6500), 200, ps})
 		p3 := n("r0t8d0")
 		add("p-silent", base, func(in *inst) { in.ups["u1"].setSeq(p3, "r0t8d0", "r0t8d0fS") },
 			step{0, 1, p3}, step{ms(6300), 8, p3}, step{ms(6900), 4, p3})
@@ -716,6 +739,9 @@ func modeC04(thorough bool) {
 			q.opt = rng.Intn(2) == 0
 			if rng.Intn(8) == 0 {
 				q.name = strings.ToUpper(q.name[:3]) + q.name[3:]
+			}
+			if rng.Intn(12) == 0 && !strings.HasPrefix(n, "h") {
+				q.cls = []uint16{dns.ClassCHAOS, dns.ClassHESIOD}[rng.Intn(2)] // same name and type, another class
 			}
 			lst := allListeners[rng.Intn(len(allListeners))]
 			if k%9 == 4 { // a pipelined batch in one segment (several frames per read event on the stream listeners)
@@ -848,6 +874,7 @@ func modeC09() {
 		q := mkq(fmt.Sprintf("%s.%s.big.test.", uniq(), j.label))
 		q.typ = dns.TypeTXT
 		q.opt, q.optsize = j.opt, j.size
+		q.optmid = j.opt && (j.size == 4096 || i%3 == 1) // the OPT need not be the last additional record (TSIG / SIG(0) follow it)
 		q.optzero = j.opt && j.size == 0
 		q.id = uint16(5000 + i)
 		in.send(j.lst, "", q, 5*time.Second, nil)
